@@ -64,6 +64,61 @@ def check_shape(behs, traces):
             raise v.MachineryError("harness recorded %d lines for a schedule with %d steps" % (len(t), want - 1))
 
 
+REPORT_LIMIT = 5     # violations reported individually per group (each gets its replay file)
+
+
+def scan(run, traces, batch=2000):
+    """One TLC pass per batch with ExportScan.cfg: indices of the traces that have a step on which
+    some C09_* invariant is false (the trace spec collects their tids)."""
+    failing = set()
+    for lo in range(0, len(traces), batch):
+        part = traces[lo:lo + batch]
+        rows = [r for t in part for r in t]
+        v.write_ndjson(run.sc.path("spec", "trace.ndjson"), rows)
+        res = v.tlc(run.sc, "ExportTrace", "ExportScan.cfg", workers=1, timeout=900, deadlock=False)
+        run.states += res.distinct
+        run.transitions += res.generated
+        if res.errors or res.violated:
+            raise v.MachineryError("scan pass: TLC error %s\n%s" % (res.errors[:3], res.out[-3000:]))
+        if res.post_failed:
+            # a line no action consumes: let the framework's validation locate and report the gap
+            return None
+        got, confmis = None, []
+        for ln in res.printed:
+            o = json.loads(ln)
+            if isinstance(o, dict) and "failing" in o:
+                got, confmis = o["failing"], o.get("confmis", [])
+        if got is None:
+            raise v.MachineryError("scan pass printed no result\n" + res.out[-2000:])
+        tids = {t[0]["tid"]: lo + i for i, t in enumerate(part)}
+        for tid in got:
+            failing.add(tids[tid])
+        run.conf_mismatch += len(confmis)
+    return failing
+
+
+def validate_group(run, traces, behs, group):
+    failing = scan(run, traces)
+    if failing is None:
+        failing = set()
+    ok = [i for i in range(len(traces)) if i not in failing]
+    run.validate("ExportTrace", "ExportTrace.cfg", [traces[i] for i in ok], [behs[i] for i in ok],
+                 known_cfg="ExportKF.cfg", group=group)
+    reported = 0
+    rest = sorted(failing)
+    while rest and reported < REPORT_LIMIT:
+        i = rest.pop(0)
+        before = len(run.violations)
+        run.validate("ExportTrace", "ExportTrace.cfg", [traces[i]], [behs[i]],
+                     known_cfg="ExportKF.cfg", group=group)
+        if len(run.violations) > before:
+            reported += 1
+    if rest:
+        run.extra["failing_traces_beyond_report_limit"] = \
+            run.extra.get("failing_traces_beyond_report_limit", 0) + len(rest)
+        v.log("group %s: %d more failing trace(s) not reported individually" % (group, len(rest)))
+
+
 def main(run: Run):
     thorough = run.tier == "thorough"
     slice_ = "all" if thorough else "quick"
@@ -73,15 +128,13 @@ def main(run: Run):
             continue
         traces = run.execute("c09", "pkg/server", "^TestVerifC09$", behs, tag="c09-" + pool)
         check_shape(behs, traces)
-        run.validate("ExportTrace", "ExportTrace.cfg", traces, behs, known_cfg="ExportKF.cfg",
-                     group=pool, conf_cfg="ExportConf.cfg")
+        validate_group(run, traces, behs, pool)
     behs = run.replay_behaviours("inbound") if run.replay else \
         bundle_known(enumerate_pool(run, "inbound", slice_))
     if behs:
         traces = run.execute("c09", "pkg/server", "^TestVerifC09$", behs, tag="c09-inbound")
         check_shape(behs, traces)
-        run.validate("ExportTrace", "ExportTrace.cfg", traces, behs, known_cfg="ExportKF.cfg",
-                     group="inbound", conf_cfg="ExportConf.cfg")
+        validate_group(run, traces, behs, "inbound")
     run.extra["enumeration"] = ("every case of the MCExport pools (path, attr%s, horizon, inbound) - exhaustive "
                                 "over the abstract domains of spec/ExportDom.tla"
                                 % ("" if thorough else " [quick slice: 2 of 4 unknown-attribute sets]"))
